@@ -34,6 +34,10 @@ fn tier_of(s: &str) -> Tier {
 fn main() {
     let args: Vec<String> = std::env::args().collect();
     let code = real_main(&args);
+    // The scratch cache directory of this process (C20's history file), if one was made
+    for base in [std::path::PathBuf::from("/dev/shm"), std::env::temp_dir()] {
+        let _ = std::fs::remove_dir_all(base.join(format!("lace-simd-cache-{}", std::process::id())));
+    }
     std::process::exit(code);
 }
 
